@@ -1,18 +1,167 @@
 (* C06 — every input yields success or diagnostics, never a crash.
-   PLACEHOLDER until the Context model (Asm/CtxModel.v) is available; replaced below when it is. *)
-From Coq Require Import NArith List.
-From Trion Require Import Asm.ReportSpec.
+   Statements about the Context model (Asm/CtxModel.v: tokenizer + parser + Context + directives + deferred
+   statements + finalize, tied to the Rust code by the correspondence stream of ./check C06 in both build profiles).
+
+   NOT proved (kept as a comment, see the final report / MANIFEST):
+     C06_never_panics : forall fs path text, include_depth_ok fs ->
+                        forall p, pipeline fs path text <> PPanic p.
+   It needs the composition of tokenizer/parser totality (C10), simplifier panic-freedom (C08), the map and segment
+   invariants (C15/C13) with a Context invariant (a file is open <-> local table and task list exist; tables hold no
+   register names).  Absence of panics is therefore decided by the correspondence stream only (implementation never
+   panics on any generated input; model = implementation on every compared case), not by proof. *)
+From Coq Require Import ZArith NArith List Bool String.
+From Trion Require Import Text.Types Asm.CtxModel Asm.ReportSpec Asm.Ctx06Proofs.
+From Trion Require Arm.AsmStmtModel Expr.EvalModel.
 Import ListNotations.
 Open Scope N_scope.
+
+(* success <=> no diagnostic recorded; failure => at least one diagnostic (a close error is its own report).
+   Every diagnostic carries a file name, line and column by construction (record CtxModel.diag). *)
+Theorem C06_reported : forall dbg fs fuel path text s diags regions,
+  pipeline_gen dbg fs fuel path text = Done s diags regions ->
+  (s = Success -> diags = []) /\ (s = Failure -> diags <> []).
+Proof. exact pipeline_reported. Qed.
+
+(* every Err return of Context::assemble (any nesting of .include) is preceded by a pushed diagnostic,
+   and diagnostics are never removed *)
+Theorem C06_assemble_reported : forall dbg fs fuel st data path r st',
+  assemble dbg fs fuel st data path = Ret r st' ->
+  (exists l, errors st' = l ++ errors st) /\ (r <> None -> exists d l, errors st' = d :: l ++ errors st).
+Proof. exact assemble_reported. Qed.
+
+(* the same for one statement and for one deferred task *)
+Theorem C06_step_reported : forall dbg fs fuel st e r st',
+  step dbg fs (assemble dbg fs fuel) st e = Ret r st' ->
+  (exists l, errors st' = l ++ errors st) /\ (r <> None -> exists d l, errors st' = d :: l ++ errors st).
+Proof. exact step_reported. Qed.
+Theorem C06_task_reported : forall dbg st t r st',
+  run_task dbg st t = Ret r st' ->
+  (exists l, errors st' = l ++ errors st) /\ (r <> None -> exists d l, errors st' = d :: l ++ errors st).
+Proof. exact run_task_spec. Qed.
+
+(* ---- C06_invalid_constructs: one statement per listed construct; each is an equation  ... = Ret (Some _) (push_error ...),
+        i.e. a diagnostic at the statement's position and no panic ---- *)
+Theorem C06_invalid_register_label : forall dbg fs inc st s l c n, is_register n = true -> active st = Active s ->
+  step dbg fs inc st (mkElement l c (ELabel n)) = Ret (Some Fatal) (push_error st l c KConstReserved).
+Proof. exact label_register. Qed.
+Theorem C06_invalid_register_const : forall st l c n v, is_register n = true ->
+  dir_const st l c [AIdent n; AConst v] = Ret (Some Fatal) (push_error st l c (KApply AConstReserved)).
+Proof. exact const_register. Qed.
+Theorem C06_invalid_register_global : forall st l c n, is_register n = true ->
+  dir_global st l c DGlobal [AIdent n] = Ret (Some Fatal) (push_error st l c (KApply AConstReserved)).
+Proof. exact global_register. Qed.
+Theorem C06_invalid_argc_addr : forall dbg st l c args, List.length args <> 1%nat ->
+  dir_addr dbg st l c args = Ret (Some Trivial) (push_error st l c (argc_class (List.length args) 1)).
+Proof. exact addr_argc. Qed.
+Theorem C06_invalid_argc_const : forall st l c args, List.length args <> 2%nat ->
+  dir_const st l c args = Ret (Some Trivial) (push_error st l c (argc_class (List.length args) 2)).
+Proof. exact const_argc. Qed.
+Theorem C06_invalid_argc_global : forall st l c d args, List.length args <> 1%nat ->
+  dir_global st l c d args = Ret (Some Trivial) (push_error st l c (argc_class (List.length args) 1)).
+Proof. exact global_argc. Qed.
+Theorem C06_invalid_argc_include : forall fs inc st l c args, List.length args <> 1%nat ->
+  dir_include fs inc st l c args = Ret (Some Trivial) (push_error st l c (argc_class (List.length args) 1)).
+Proof. exact include_argc. Qed.
+Theorem C06_invalid_argc_align : forall dbg st s l c args, active st = Active s -> List.length args <> 1%nat ->
+  dir_align dbg st l c args = Ret (Some Trivial) (push_error st l c (argc_class (List.length args) 1)).
+Proof. exact align_argc. Qed.
+Theorem C06_invalid_argc_bytes : forall dbg fs st s l c d args, active st = Active s -> List.length args <> 1%nat ->
+  dir_bytes dbg fs st l c d args = Ret (Some Trivial) (push_error st l c (argc_class (List.length args) 1)).
+Proof. exact bytes_argc. Qed.
+Theorem C06_invalid_argc_data : forall dbg st s l c k args, active st = Active s -> has_remaining dbg s (dk_size k) = SOk true ->
+  List.length args <> 1%nat ->
+  dir_data dbg st l c k args = Ret (Some Trivial) (push_error st l c (argc_class (List.length args) 1)).
+Proof. exact data_argc. Qed.
+Theorem C06_invalid_kind_global : forall st l c d a, (forall n, a <> AIdent n) ->
+  dir_global st l c d [a] = Ret (Some Trivial) (push_error st l c KDirArgType).
+Proof. exact global_kind. Qed.
+Theorem C06_invalid_kind_include : forall fs inc st l c a, (forall n, a <> AStr n) ->
+  dir_include fs inc st l c [a] = Ret (Some Trivial) (push_error st l c KDirArgType).
+Proof. exact include_kind. Qed.
+Theorem C06_invalid_kind_const : forall st l c a0 a1, (forall n, a0 <> AIdent n) ->
+  dir_const st l c [a0; a1] = Ret (Some Trivial) (push_error st l c KDirArgType).
+Proof. exact const_kind. Qed.
+Theorem C06_invalid_kind_bytes : forall dbg fs st s l c d a, active st = Active s -> (forall n, a <> AStr n) ->
+  dir_bytes dbg fs st l c d [a] = Ret (Some Trivial) (push_error st l c KDirArgType).
+Proof. exact bytes_kind. Qed.
+Theorem C06_invalid_unknown_directive : forall dbg fs inc st l c name args, dir_of name = None ->
+  process_directive dbg fs inc st l c name args = Ret (Some Fatal) (push_error st l c KDirNotFound).
+Proof. exact unknown_directive. Qed.
+Theorem C06_invalid_unknown_mnemonic : forall dbg st s l c name args, active st = Active s -> has_remaining dbg s 2 = SOk true ->
+  AsmStmtModel.template name = None ->
+  assemble_instr dbg st l c name args = Ret (Some Fatal) (push_error st l c (KInstr AsmStmtModel.DNotFound)).
+Proof. exact unknown_mnemonic. Qed.
+Theorem C06_invalid_range_data : forall dbg st d v local, de_arg d = AConst v -> (v < 0 \/ dk_max (de_kind d) < v)%Z ->
+  exists d', data_apply dbg st d local = Ret (DErr Trivial, d') (push_error_in st (de_file d) (de_line d) (de_col d) (KApply ADataRange)).
+Proof. exact data_range. Qed.
+Theorem C06_invalid_range_align : forall dbg st s l c v, active st = Active s -> (v <= 0 \/ 4294967296 <= v)%Z ->
+  dir_align dbg st l c [AConst v] = Ret (Some Fatal) (push_error st l c (KApply AAlignRange)).
+Proof. exact align_range. Qed.
+Theorem C06_invalid_range_addr : forall dbg st l c v, (v < 0 \/ 4294967296 <= v)%Z ->
+  dir_addr dbg st l c [AConst v] = Ret (Some Fatal) (push_error st l c (KApply AAddrRange)).
+Proof. exact addr_range. Qed.
+Theorem C06_invalid_undefined_symbol : forall dbg st d g x t, de_arg d = AIdent x -> is_register x = false -> path_stack st <> [] ->
+  locals st = Some t -> tbl_get t x = None ->
+  exists d', run_task dbg st (DataTask d g) = Ret (Some Trivial) (push_error_in st (de_file d') (de_line d') (de_col d') (KApply AEval)).
+Proof. exact undefined_symbol. Qed.
+Theorem C06_invalid_duplicate_label : forall dbg fs inc st s l c n w t, is_register n = false -> active st = Active s ->
+  locals st = Some t -> tbl_get t n = Some (Some w) ->
+  step dbg fs inc st (mkElement l c (ELabel n)) = Ret (Some Fatal) (push_error st l c KConstDuplicate).
+Proof. exact label_duplicate. Qed.
+Theorem C06_invalid_duplicate_const : forall st l c n v w t, is_register n = false -> locals st = Some t -> tbl_get t n = Some (Some w) ->
+  dir_const st l c [AIdent n; AConst v] = Ret (Some Fatal) (push_error st l c (KApply AConstDup)).
+Proof. exact const_duplicate. Qed.
+Theorem C06_invalid_before_addr_label : forall dbg fs inc st l c n, active st = Inactive ->
+  step dbg fs inc st (mkElement l c (ELabel n)) = Ret (Some Fatal) (push_error st l c KInactive).
+Proof. exact label_inactive. Qed.
+Theorem C06_invalid_before_addr_instr : forall dbg fs inc st l c n args, active st = Inactive ->
+  step dbg fs inc st (mkElement l c (EInstruction n args)) = Ret (Some Fatal) (push_error st l c KInactive).
+Proof. exact instr_inactive. Qed.
+Theorem C06_invalid_before_addr_data : forall dbg st l c k args, active st = Inactive ->
+  dir_data dbg st l c k args = Ret (Some Fatal) (push_error st l c (KApply ADataInactive)).
+Proof. exact data_inactive. Qed.
+Theorem C06_invalid_before_addr_bytes : forall dbg fs st l c d args, active st = Inactive ->
+  dir_bytes dbg fs st l c d args = Ret (Some Fatal) (push_error st l c (KApply ADataInactive)).
+Proof. exact bytes_inactive. Qed.
+Theorem C06_invalid_before_addr_align : forall dbg st l c args, active st = Inactive ->
+  dir_align dbg st l c args = Ret (Some Fatal) (push_error st l c (KApply AAlignInactive)).
+Proof. exact align_inactive. Qed.
+
+(* non-vacuity: every listed construct through the WHOLE model pipeline (tokenizer, parser, Context, finalize),
+   and the observation oracle of the correspondence stream *)
+Theorem C06_examples_pipeline :
+  run1 ".const R0, 5;" = Some (Failure, [KApply AConstReserved]) /\
+  run1 ".global sp;" = Some (Failure, [KApply AConstReserved]) /\
+  run1 ".import R0;" = Some (Failure, [KApply AGNotFound]) /\
+  run1 ".export PC;" = Some (Failure, [KApply AGNotFound]) /\
+  run1 ".addr 256; R0:" = Some (Failure, [KConstReserved]) /\
+  run1 ".addr;" = Some (Failure, [KDirNotEnough]) /\
+  run1 ".const X, 1, 2;" = Some (Failure, [KDirTooMany]) /\
+  run1 ".addr 256; NOP R0;" = Some (Failure, [KInstr AsmStmtModel.DTooMany; KInstr AsmStmtModel.DTooMany]) /\
+  run1 ".include 5;" = Some (Failure, [KDirArgType]) /\
+  run1 ".addr 256; FOO;" = Some (Failure, [KInstr AsmStmtModel.DNotFound]) /\
+  run1 ".bar;" = Some (Failure, [KDirNotFound]) /\
+  run1 ".addr 256; .du8 256;" = Some (Failure, [KApply ADataRange; KApply ADataRange]) /\
+  run1 ".addr 256; .du16 0 - 1;" = Some (Failure, [KApply ADataRange; KApply ADataRange]) /\
+  run1 ".addr 256; .align 0;" = Some (Failure, [KApply AAlignRange]) /\
+  run1 ".addr 256; B 256 + 4 + 2048;" = Some (Failure, [KInstr AsmStmtModel.DRange; KInstr AsmStmtModel.DRange]) /\
+  run1 ".addr 256; .du32 UNDEF;" = Some (Failure, [KApply AEval]) /\
+  run1 ".addr 256; L: NOP; L:" = Some (Failure, [KConstDuplicate]) /\
+  run1 ".const K, 1; .const K, 2;" = Some (Failure, [KApply AConstDup]) /\
+  run1 "NOP;" = Some (Failure, [KInactive]) /\
+  run1 ".du8 1;" = Some (Failure, [KApply ADataInactive]) /\
+  run1 ".include ""p.asm"";" = Some (Failure, [KApply AIncRecursive]) /\
+  run1 ".addr 256; X: .global X; .du32 X;" = Some (Success, []).
+Proof. exact pipeline_examples. Qed.
 
 Theorem C06_examples :
   judge [([112], [78;79;80;59;10])] StSuccess [] false None = None /\
   judge [([112], [78;79;80;59;10])] StPanic [] false None = Some VPanic /\
   judge [([112], [78;79;80;59;10])] StFailure [] false None = Some VFailureUnreported /\
-  judge [([112], [78;79;80;59;10])] StFailure [mkDiag [112] 1 5] false None = None /\
-  judge [([112], [78;79;80;59;10])] StFailure [mkDiag [112] 2 1] false None = None /\
-  judge [([112], [78;79;80;59;10])] StFailure [mkDiag [112] 2 2] false None = Some VDiagOutOfBounds /\
-  judge [([112], [78;79;80;59;10])] StFailure [mkDiag [113] 1 1] false None = Some VDiagOutOfBounds /\
+  judge [([112], [78;79;80;59;10])] StFailure [ReportSpec.mkDiag [112] 1 5] false None = None /\
+  judge [([112], [78;79;80;59;10])] StFailure [ReportSpec.mkDiag [112] 2 1] false None = None /\
+  judge [([112], [78;79;80;59;10])] StFailure [ReportSpec.mkDiag [112] 2 2] false None = Some VDiagOutOfBounds /\
+  judge [([112], [78;79;80;59;10])] StFailure [ReportSpec.mkDiag [113] 1 1] false None = Some VDiagOutOfBounds /\
   judge [([112], [78;79;80;59;10])] StSuccess [] true None = Some VInvalidAccepted /\
-  judge [([112], [78;79;80;59;10])] StFailure [mkDiag [112] 1 1] true (Some (mkDiag [112] 1 2)) = Some VWrongPosition.
+  judge [([112], [78;79;80;59;10])] StFailure [ReportSpec.mkDiag [112] 1 1] true (Some (ReportSpec.mkDiag [112] 1 2)) = Some VWrongPosition.
 Proof. vm_compute. repeat split. Qed.
